@@ -14,6 +14,19 @@ CHECKS["C02"] = dict(level="exploration", design="4/C02", engine="module-generat
     technique="property-based testing: generated module ASTs + layouts, reference model vs indentation view of the page",
     text="Random module ASTs (all command kinds, nesting, documented/undocumented, dangling doccomments, comment-rich layouts, mixed-case command names) are rendered and documented with default settings; the sequence, kind, signature, admonition, doc and members of every entry must equal an independent reference model, and comment/undocumented/dangling markers must be absent. Exploration: thousands of modules per run.",
     note="Trusts the reference model (vlib/model.py, written from the property text and user docs), the renderer's soundness rules (validated against cmake in C05) and the indentation parser of vlib/rstview.py; doc texts are benign.")
+GEN_NOTE = "Trusts the renderer's soundness rules (validated against cmake in C05), CPython, Hypothesis. "
+CHECKS["C01"] = dict(level="exploration", design="4/C01", engine="module-generator-and-model",
+    technique="property-based testing: generated doccomment bodies (arbitrary printable Unicode), construction-knowledge oracle on the line view",
+    text="Every generated doccomment (arbitrary printable Unicode lines, leader-set characters, leading/trailing spaces, empty lines, space/tab block indentation, leader-less form, all item kinds and nesting, @module docs) must reappear line for line, contiguous, once, inside the block of its owning entry; checked on Documenter output and, for a sample, on the UTF-8 file written by `cminx -o`.",
+    note=GEN_NOTE + "Owner lookup uses the reference model validated by C02; whitespace-only output lines stand for blank doc lines.")
+CHECKS["C03"] = dict(level="exploration", design="4/C03", engine="module-generator-and-model",
+    technique="property-based testing: generated definitions x cmake_parse_arguments placements x drawn trigger/strip settings, reference model for signatures",
+    text="Function/macro definitions at any nesting with cmake_parse_arguments calls in every placement class, under drawn trigger strings (present, near-miss, case-swapped) and independent strip regexes; the `.. function::` argument must equal name(stripped params [**kwargs]) computed by the model.",
+    note=GEN_NOTE + "Python's re computes expected stripping.")
+CHECKS["C04"] = dict(level="exploration", design="4/C04", engine="module-generator-and-model",
+    technique="metamorphic property-based testing: same token sequence under canonical vs drawn layouts (+CRLF), byte comparison",
+    text="Each module AST is rendered in the canonical layout and 1-3 random layouts (whitespace, all comment shapes incl. code/delimiter look-alikes, comments inside argument lists and between doccomment and command, doc block re-indentation with spaces/tabs, per-occurrence command casing, missing final newline) and as CRLF; outputs must be byte-identical (CRLF: modulo CR and whitespace-only lines).",
+    note=GEN_NOTE + "Two layouts share the token sequence by construction (same AST, same argument strings).")
 NOT_APPLICABLE = [
 ]
 
